@@ -490,11 +490,27 @@ class EncodeIntSpec(KernelSpec):
         return I("i64", int(toks[0]))
 
 
+def exact_cmp(opn, iv, fv):
+    """mathematically exact comparison of an i64 value with an f64 constant: both are converted (exactly) to a binary
+    floating-point sort with a 113-bit significand and compared there; NaN is excluded by the obligations"""
+    Q = z3.FPSort(15, 113)
+    if iv.concrete and fv.concrete:
+        from fractions import Fraction
+        import struct
+        f = struct.unpack("<d", struct.pack("<Q", fv.v & ((1 << 64) - 1)))[0]
+        a, b = Fraction(iv.v), Fraction(f)
+        return I("bool", {"Eq": a == b, "Ne": a != b, "Lt": a < b, "Le": a <= b, "Gt": a > b, "Ge": a >= b}[opn])
+    A = z3.fpSignedToFP(z3.RNE(), iv.z(), Q)
+    Bq = z3.fpFPToFP(z3.RNE(), z3.fpBVToFP(fv.z(), z3.Float64()), Q)
+    r = {"Eq": z3.fpEQ(A, Bq), "Ne": z3.Not(z3.fpEQ(A, Bq)), "Lt": z3.fpLT(A, Bq), "Le": z3.fpLEQ(A, Bq), "Gt": z3.fpGT(A, Bq), "Ge": z3.fpGEQ(A, Bq)}[opn]
+    return I("bool", r)
+
+
 class EncodeFloatSpec(KernelSpec):
     """Codec::encode_float(c): the float WHERE-constant translated into the encoding domain of an integer column stored as
-    e: T with codec [Add(T, y)] / [ToI64(T)].  The kernels then compare `e as f64 OP encode_float(c)`.  Oracle: what the same
-    query computes on the same values stored as plain i64 (`(e + y) as f64 OP c`) - the answer must not depend on the encoding.
-    Two modes: 'grid' = constants k / 2^16 with |k| < 2^47 and |y| < 2^31, where every f64 operation involved is exact;
+    e: T with codec [Add(T, y)] / [ToI64(T)].  The kernels then compare `e as f64 OP encode_float(c)`.  Oracle: the mathematically exact
+    comparison of the decoded integer e + y with the constant c (both embedded exactly in a 113-bit-significand float sort).
+    Two modes: 'grid' = constants k / 2^10 with |k| < 2^51 and |y| < 2^41, where every f64 operation involved is exact;
     'full' = every non-NaN f64 constant and every offset the builder can emit."""
     method = ("Codec", None, "encode_float")
     diff_cases = 4
@@ -502,7 +518,8 @@ class EncodeFloatSpec(KernelSpec):
 
     def instantiations(self, tier):
         ts = ("u8", "u32") if tier == "quick" else ("u8", "u16", "u32")
-        return [{"T": t, "kind": k, "mode": m, "nat": "codec_encode_float"} for t in ts for k in ("Add", "ToI64") for m in ("grid", "full")]
+        return [{"T": t, "kind": k, "mode": m, "nat": "codec_encode_float"} for t in ts for k in ("Add", "ToI64") for m in ("grid", "full")
+                if not (tier == "quick" and m == "full" and t != "u8")]
 
     def sym_inputs(self, inst, shape):
         t = inst["T"]
@@ -511,9 +528,9 @@ class EncodeFloatSpec(KernelSpec):
         if inst["mode"] == "grid":
             k = sym("i64", "k")
             inp["k"] = k
-            pre += [k.v > -(1 << 47), k.v < (1 << 47)]
+            pre += [k.v > -(1 << 51), k.v < (1 << 51)]
             kf = z3.fpSignedToFP(z3.RNE(), k.v, z3.Float64())
-            c = z3.fpMul(z3.RNE(), kf, z3.FPVal(2.0 ** -16, z3.Float64()))
+            c = z3.fpMul(z3.RNE(), kf, z3.FPVal(2.0 ** -10, z3.Float64()))
             inp["c"] = I("f64", z3.fpToIEEEBV(c))
         else:
             c = sym("f64", "c")
@@ -525,7 +542,7 @@ class EncodeFloatSpec(KernelSpec):
             pre.append(z3.Not(s.fields[1].z()))
             pre.append(inp["y"].v != 0)
             if inst["mode"] == "grid":
-                pre += [inp["y"].v > -(1 << 31), inp["y"].v < (1 << 31)]
+                pre += [inp["y"].v > -(1 << 41), inp["y"].v < (1 << 41)]
         return inp, pre
 
     def explore(self, ctx, ex, fn, inst, shape, inp, pre):
@@ -536,21 +553,23 @@ class EncodeFloatSpec(KernelSpec):
         st = ex.start(fn, [Ref(Cell(Agg("struct", vals, name="Codec"))), inp["c"]], {}, pc=pre)
         return ex.explore(st)
 
+    FULL_LABEL = "decoded OP constant <=> encoded OP translated constant for all six operators (all non-NaN f64 constants, all offsets: includes constants whose translation x - offset rounds)"
+
     def label(self, inst, name):
-        if inst["mode"] == "grid":
-            return f"decoded {name} constant <=> encoded {name} translated constant (constants on the 2^-16 grid, |c| < 2^31, |offset| < 2^31: exact f64 arithmetic)"
-        return f"decoded {name} constant <=> encoded {name} translated constant (all f64 constants and offsets)"
+        return f"decoded {name} constant <=> encoded {name} translated constant (constants on the 2^-10 grid with |c| < 2^41, |offset| < 2^41: every f64 operation exact)"
 
     def post(self, inst, shape, inp, value, state=None):
         from ..mirsym.values import cast_int_to_float
         enc_c = value
         e64 = cast_int(inp["e"], "i64")
         dec = binop("Add", e64, inp["y"]) if inst["kind"] == "Add" else e64
-        dec_f = cast_int_to_float(dec, "f64")
         e_f = cast_int_to_float(inp["e"], "f64")
         conds = []
         for name, opn in self.OPS:
-            conds.append((self.label(inst, name), binop("Eq", binop(opn, dec_f, inp["c"]), binop(opn, e_f, enc_c))))
+            conds.append((self.label(inst, name), binop("Eq", exact_cmp(opn, dec, inp["c"]), binop(opn, e_f, enc_c))))
+        if inst["mode"] == "full":
+            # one label for the whole f64 domain: outside the exact grid a failure is a rounding effect of `x - y as f64`
+            return [(self.FULL_LABEL, band(*[c for _, c in conds]))]
         return conds
 
     def random_inputs(self, rng, inst, shape):
@@ -562,8 +581,8 @@ class EncodeFloatSpec(KernelSpec):
         if inst["kind"] == "Add":
             y = rng.choice([-5, 1000, -2**30, 2**20, 77])
             inp["y"] = I("i64", y)
-        k = (y + e.v + rng.randint(-3, 3)) * 65536 + rng.choice([0, 1, 32768, 65535, -1])
-        c = k / 65536.0
+        k = (y + e.v + rng.randint(-3, 3)) * 1024 + rng.choice([0, 1, 512, 1023, -1])
+        c = k / 1024.0
         if inst["mode"] == "grid":
             inp["k"] = I("i64", k)
         inp["c"] = I("f64", struct.unpack("<Q", struct.pack("<d", c))[0])
